@@ -77,6 +77,90 @@ def gen_runs(r, n, k, style):
     return runs
 
 
+def gen_sweep_ops(r, path, complete, style):
+    """a history of getblock / iterblocks calls on one lsweep object interleaved with insertions of
+    the handed-out blocks into graphs; start addresses are instruction addresses of `path`, biased
+    to addresses asked before and to addresses strictly inside blocks handed out before."""
+    n = len(path)
+    runs = O.expected_runs(path, 0, True)
+    end_of = {}
+    for (s, e) in runs:
+        for k in range(s, e):
+            end_of[k] = e
+
+    def run_from(k):                  # (k, e): the block the sweep hands out from instruction k (approximation for the bias only)
+        return (k, end_of.get(k, n))
+    asked, inside = [], []
+
+    def note(k, nblocks=1):
+        asked.append(k)
+        for _ in range(nblocks):
+            if k >= n:
+                break
+            s, e = run_from(k)
+            inside.extend(range(s + 1, e))
+            k = e
+
+    def pick():
+        c = r.random()
+        if asked and c < 0.4:
+            return r.choice(asked)
+        if inside and c < 0.75:
+            return r.choice(inside)
+        return r.randrange(n)
+
+    def gsel():
+        return r.choice([None, 0, 0, 0, 1, 1, "G"])
+    ops = []
+    if style == "orders":
+        # blocks of a few starts inserted in one order, then all asked again and inserted in another graph in another order
+        ks = sorted(set(pick() if i else r.randrange(n) for i in range(r.choice([2, 3, 3]))) | set([r.choice(inside)] if inside else []))
+        for i in range(3):
+            for k in ks:
+                note(k)
+            ks = sorted(set(ks) | set([pick()]))[:4]
+        for g in (0, 1, "G")[: r.choice([2, 2, 3])]:
+            order = list(ks)
+            r.shuffle(order)
+            for k in order:
+                ops.append(["gb", path[k][0], r.random() < 0.3, g])
+        return ops
+    if style == "revisit":
+        # ask a block, have it split by a block starting inside it, ask again
+        multi = [(s, e) for (s, e) in runs if e - s >= 2]
+        if multi:
+            s, e = r.choice(multi)
+            k0 = r.randint(s, e - 2)
+            g = r.choice([0, 0, "G"])
+            ops.append(["gb", path[k0][0], r.random() < 0.3, g])
+            note(k0)
+            k1 = r.randint(k0 + 1, e - 1)
+            if r.random() < 0.3:
+                ops.append(["gbcut", path[k0][0], False, path[k1][0]])
+            else:
+                ops.append(["gb", path[k1][0], r.random() < 0.3, g])
+            note(k1)
+    for _ in range(r.randint(2, 7)):
+        c = r.random()
+        k = pick()
+        if c < 0.6:
+            ops.append(["gb", path[k][0], r.random() < 0.3, gsel()])
+            note(k)
+        elif c < 0.9:
+            nb = r.randint(1, 4)
+            sel = list(range(nb))
+            r.shuffle(sel)
+            g = gsel()
+            ins = [[j, g if r.random() < 0.8 else gsel()] for j in sel if r.random() < 0.7]
+            ops.append(["ib", path[k][0], r.random() < 0.3, nb, [x for x in ins if x[1] is not None]])
+            note(k, nb)
+        else:
+            s, e = run_from(k)
+            ops.append(["gbcut", path[k][0], False, path[r.randint(k, e - 1)][0] if r.random() < 0.85 else path[k][0] + 1])
+            note(k)
+    return ops
+
+
 def shrink(stream, hist, fails):
     """remove history items while `fails(hist)` keeps returning the same key."""
     key = fails(hist)
@@ -122,6 +206,7 @@ def main(tier):
     ck.cov["isas_not_importable"] = badcpu
 
     streams = []       # (isa, buffer, [instruction objects], [dumps]) for C and D
+    tasks = {}         # sample programs, for F
 
     # ---- A: sweeps on raw buffers -----------------------------------------------------------
     nbuf = 4 if quick else 100
@@ -133,8 +218,14 @@ def main(tier):
         except BaseException as e:
             ck.count("A.isa-unusable")
             continue
-        for bi in range(nbuf):
-            buf = src.buffer(r.randint(4, 28), cf_rate=r.choice([0.1, 0.3, 0.5]), junk_rate=r.choice([0, 0, 0.05]))
+        for bi in range(nbuf + max(1, nbuf // 4)):
+            if bi < nbuf:
+                buf = src.buffer(r.randint(4, 28), cf_rate=r.choice([0.1, 0.3, 0.5]), junk_rate=r.choice([0, 0, 0.05]))
+            else:
+                # a stretch of one repeated instruction (padding, sled, unrolled loop): different runs with equal bytes
+                one = src.instr_bytes(want_cf=False) or b""
+                buf = src.buffer(r.randint(1, 4), cf_rate=0.2) + one * r.randint(3, 9) + src.buffer(r.randint(1, 4), cf_rate=0.4)
+                ck.count("A.buffers-with-repeated-instruction")
             if not buf:
                 continue
             try:
@@ -331,6 +422,7 @@ def main(tier):
                 corr.append(("sweep:sample:%s" % rel, case, {"seq": rs, "blocks": rb}, m))
             if off == 0 and len(seq) >= 3:
                 streams.append(("sample:" + rel, None, seq[:40], dseq[:40]))
+                tasks["sample:" + rel] = p
             if not sampled.get("B"):
                 sampled["B"] = 1
                 ck.sample({"B": [rel, hex(loc), rb[:2]]})
@@ -567,6 +659,93 @@ def main(tier):
                 continue
         if m != real:
             corr.append(("zone:write", {"kind": "zone", "isa": name, "stream": stream_j, "writes": ws}, real, m))
+    # ---- F: call histories on ONE lsweep object interleaved with graph insertions ------------------
+    def sweephist_key(p, path, complete, ops):
+        steps = R.run_sweep_history(p, ops)
+        return O.judge_sweep_history(path, complete, ops, steps), steps
+
+    nper = 5 if quick else 150
+    fstreams = [s for s in streams if len(s[2]) >= 3]
+    by_isa = {}
+    for s_ in fstreams:
+        by_isa.setdefault(s_[0], []).append(s_)
+    for name in sorted(by_isa):
+        for hi in range(nper):
+            _, buf, seq, dseq = r.choice(by_isa[name])
+            try:
+                p = tasks[name] if name.startswith("sample:") else R.raw_task(buf, cpus[name])
+                path, status = R.table_path(p, dseq[0][0], 60 if quick else 200)
+            except BaseException as e:
+                ck.count("F.setup-failed")
+                continue
+            if status == "unmodelled" or len(path) < 3:
+                ck.count("F.unmodelled-reader-raises")
+                continue
+            complete = status == "complete"
+            style = r.choice(["random", "random", "revisit", "revisit", "orders"])
+            ops = gen_sweep_ops(r, path, complete, style)
+            if not ops:
+                continue
+            key, steps = sweephist_key(p, path, complete, ops)
+            if any(st["res"] == "unmodelled" for st in steps):
+                ck.count("F.unmodelled-non-instruction")
+                continue
+            stream_j = [[d[0], O.ilen(d)] for d in path]
+            ck.case(("F", name, buf, tuple(x[0] for x in stream_j), json.dumps(ops)), nontrivial=len(ops) > 1)
+            ck.count("F.histories")
+            ck.count("F.style." + style)
+            ck.count("F.isa." + name.split(":")[0])
+            for op, st in zip(ops, steps):
+                if st["res"] != "ok":
+                    continue
+                ck.count("F.op." + op[0])
+                ck.count("F.blocks-handed-out", len(st["blocks"]))
+                ck.count("F.call." + ("repeat-after-cut" if st["cut_before"] else "repeat" if st["repeat"] else "first-call"))
+                for rec in st["ins"]:
+                    ck.count("F.insertions." + ("own-graph" if rec["g"] == "G" else "fresh-graph"))
+            if sampled.get("F", 0) < 2 and len(ops) > 3:
+                sampled["F"] = sampled.get("F", 0) + 1
+                ck.sample({"F": {"isa": name, "stream": stream_j[:12], "ops": ops}})
+            case = {"kind": "sweephist", "isa": name, "bytes": buf.hex() if buf else None, "start": path[0][0], "n": len(path),
+                    "complete": complete, "ops": ops}
+            if key is not None:
+                def fails(h):
+                    kk, _ = sweephist_key(p, path, complete, h)
+                    return None if kk is None else kk[:2]
+                small = shrink(None, list(ops), fails) if fails(list(ops)) == key[:2] else list(ops)
+                k2, steps2 = sweephist_key(p, path, complete, small)
+                k2 = k2 or key
+                case["ops"] = small
+                thm = "Amoco.Cfg.Props.cfg_partition" if k2[0].startswith("add_vertex") else "Amoco.Blocks.Props.blocks_maximal_runs"
+                ck.report("C18:lsweep-history:%s:%s" % (k2[0], k2[1]),
+                          "one lsweep object on the %s stream %r, calls %r: %s at call %d (%s; %s)"
+                          % (name, stream_j[:40], small, k2[0], k2[2], k2[1], k2[3]), "oracle", thm, case=case,
+                          real=steps2[k2[2]] if k2[2] < len(steps2) else None,
+                          expected="every handed-out block is the maximal run of the instruction stream from the asked address up to the "
+                                   "first block end, whatever was asked or inserted into a graph before; each graph holds the inserted "
+                                   "instructions exactly once")
+                continue
+            # model: every graph of the history against Amoco.Cfg on the runs that were inserted
+            A_ = {a: k for k, (a, l) in enumerate(stream_j)}
+            hists, finals, offg = {}, {}, set()
+            for st in steps:
+                for rec in st["ins"]:
+                    if rec["g"] in offg or rec["first"] not in A_ or A_[rec["first"]] + rec["n"] > len(stream_j):
+                        offg.add(rec["g"])
+                        ck.count("F.graph-beyond-known-stream")
+                        continue
+                    hists.setdefault(rec["g"], []).append([A_[rec["first"]], A_[rec["first"]] + rec["n"]])
+                    finals[rec["g"]] = rec["support"]
+            for g, h in hists.items():
+                if g in offg:
+                    continue
+                m = drv.ask({"op": "cfg", "stream": stream_j, "hist": h})
+                ms = m.get("steps", [])
+                if any(x.get("res") == "unmodelled" for x in ms):
+                    ck.count("F.unmodelled")
+                    continue
+                if not ms or ms[-1].get("support") != finals[g]:
+                    corr.append(("cfg:lsweep-history", dict(case, graph=g, hist=h), finals[g], ms[-1] if ms else m))
     # a block of another decoding of the same bytes (overlay zone): outside the modelled fragment
     novl = 0
     for name, buf, seq, dseq in dstreams[: (3 if quick else 30)]:
@@ -624,10 +803,17 @@ def main(tier):
                    "harness/cfg_oracle.py (plain-Python property oracles) for the failing-input search",
                    "compiled Lean driver drv_cfg (evaluation of the model definitions)"]
     return ck.finish("A: spec-directed raw buffers for every importable ISA with a raw task loader, sweeps from offset 0 and random offsets, int and cst "
-                     "start (non-trivial: more than one instruction); B: samples from the entry point and nearby; C: random runs of those streams "
+                     "start, one buffer in five with a stretch of one repeated instruction (non-trivial: more than one instruction); B: samples from the entry point and nearby; C: random runs of those streams "
                      "with boundary / non-boundary / None / negative slice bounds and cut addresses; D: histories of runs of one stream — all orders "
                      "of 2–5 runs (suffix-of-terminator, nested, free) and random orders/subsets of up to 10 runs with duplicates and re-insertion, "
-                     "compared after every insertion (non-trivial: more than one insertion)")
+                     "compared after every insertion (non-trivial: more than one insertion); F: call histories on ONE long-lived lsweep object per "
+                     "stream (every ISA and sample): getblock / iterblocks(first n blocks) at instruction addresses biased to addresses asked "
+                     "before and to addresses inside blocks handed out before, int and cst, each handed-out block optionally inserted "
+                     "(iterblocks: subsets in random order) into one of several fresh graphs or the analysis' own graph, or trimmed by the "
+                     "caller; styles random / revisit (ask, split by a block starting inside, ask again) / orders (same starts inserted in "
+                     "different orders into several graphs); every handed-out block is judged against the independent reader walk "
+                     "(maximal run to the first block end, support, length, raw) and every graph by the partition oracle after each "
+                     "insertion (non-trivial: more than one call)")
 
 
 def rebuild(case, start, n):
@@ -688,6 +874,17 @@ def replay(path):
         print("real    :", json.dumps({"seq": [[d[0], O.ilen(d)] for d in dseq], "blocks": [[d[0] for d in x] for x in dblocks]}))
         print("model   :", json.dumps(m))
         print("expected: consecutive instructions as the reader gives them, blocks = maximal runs up to a block end")
+    elif kind == "sweephist":
+        p, _ = rebuild(case, case["start"], 1)
+        spath, status = R.table_path(p, case["start"], case["n"])
+        complete = case.get("complete", status == "complete")
+        steps = R.run_sweep_history(p, case["ops"])
+        key = O.judge_sweep_history(spath, complete, case["ops"], steps)
+        print("stream  :", json.dumps([[d[0], O.ilen(d)] for d in spath]))
+        for op, st in zip(case["ops"], steps):
+            print("call    :", json.dumps(op), "->", json.dumps([[d[0] for d in b] for b in st.get("blocks", [])]) if st["res"] == "ok" else st)
+        print("expected: every handed-out block is the maximal run from the asked address to the first block end; graphs hold the inserted instructions exactly once")
+        bad = None if key is None else "%s (%s) at call %d: %s" % key
     elif kind == "block":
         dumps, op = case["stream"], case["op"]
         p, seq = rebuild(case, dumps[0][0], len(dumps)) if case.get("bytes") or case["isa"].startswith("sample:") else (None, None)
